@@ -56,7 +56,8 @@ CHECKS["C12"] = dict(
          "stream with non-decreasing timestamps collapse-then-fill returns (the Python loop's only non-termination case, a list that is "
          "not strictly increasing on the grid, is unreachable); and schedule independence: mgr_append cfg (tasks cfg xs) ys = tasks cfg "
          "(xs ++ ys) for the manager with timeframe and fill, any sorted raw stream and any split. Correspondence and falsifier as for C03 with fill on, incl. schedule "
-         "independence against a batch twin (with and without Heikin-Ashi).",
+         "independence against a batch twin (with and without Heikin-Ashi), and the same stream through a Hexital without a timeframe whose "
+         "member asks for one (the Hexital's fill flag governs) against the standalone manager.",
     note="Fill combined with Heikin-Ashi or a lifespan under appends is decided by correspondence + falsifier. Axioms: none.",
     technique="Coq proof (inductive fill relation) + vm_compute correspondence + falsifier",
     design="5/C12")
@@ -67,7 +68,9 @@ CHECKS["C15"] = dict(
          "manager with timeframe and lifespan. Clause 2 for one reading: for SMA, EMA, RMA, WMA, VWMA, ROC, TR, OBV, Counter, HLA the value computed at an index is "
          "the same with or without a trimmed prefix that leaves the class's look-back. Correspondence: manager with lifespan, all timeframe/fill variants (check_mgr) and every indicator kind fed candle by "
          "candle under a lifespan that always keeps its look-back (check_ind); falsifier: window against an untrimmed twin after every "
-         "append, and readings on the retained candles equal to the untrimmed twin's for all 27 kinds.",
+         "append, and readings on the retained candles equal to the untrimmed twin's for all 27 kinds - with the class's look-back plus "
+         "slack retained, and, for the indicators that are purely recursive once seeded, on a stream that thins out after warm-up so "
+         "that the window holds only two or three candles (one predecessor).",
     note="Clause 2 is proved at the level of one reading for ten classes without helper series (value at an index unchanged by "
          "dropping a prefix that leaves lookback(class) candles); for the other classes and for whole runs it is decided by "
          "correspondence + falsifier. Axioms: none.",
@@ -141,8 +144,10 @@ CHECKS["C07"] = dict(
          "exceeds the indicator's window whatever the history (all NumOps instances); in the engine model, the loop of calculate() "
          "instrumented with an invocation counter (proved to return the loop's own result) makes exactly k _calculate_reading "
          "invocations after k candles are appended to a calculated leaf indicator, whatever the history length. The specs reproduce the implementation bit for bit "
-         "(check_spec, run in C04-C06). Falsifier: executed-line counts (sys.monitoring) inside indicator/analysis/utils code for the "
-         "same trailing appends after histories of 150/600(/2400) candles must be identical, for every kind, Hexitals and always-None readings.",
+         "(check_spec, run in C04-C06). Falsifier: executed-line counts (line tracer; def headers and repeated reports of one line excluded) inside indicator/analysis/utils code for the "
+         "same trailing appends after histories of 150/600(/2400) candles must be identical, for every kind, Hexitals, always-None readings and "
+         "manager settings (timeframe with and without gap filling, Heikin-Ashi, lifespan); a difference is a violation when the work keeps "
+         "growing on a still longer history (a bounded one-off difference is a data-dependent branch, counted in the evidence).",
     note="Partial: CPU time is outside any Gallina model; the theorem bounds the state of the recurrence form, the tie to real execution "
          "is the line-count measurement on sampled histories. Specs exist for 11 of 27 kinds. Axioms: none.",
     technique="Coq proof (bounded state of the step functions) + line-count falsifier", design="5/C07")
@@ -152,7 +157,7 @@ CHECKS["C08"] = dict(
          "other's entries (engine frame theorem, all 27 kinds); a member without helper series that shares a manager with any other "
          "members has, candle by candle, the entries of its standalone twin (non-interference theorem). Tie: the Hexital model run against hexital.Hexital (check_hx). "
          "Falsifier: member vs standalone twin fed the same schedule, object/"
-         "dict/settings forms, Hexital-level timeframe/fill/lifespan/HA, base candles unaltered.",
+         "dict/settings forms, Hexital-level timeframe/fill/lifespan/HA, member timeframes that need not divide one another, base candles unaltered.",
     note="The Hexital model (construction incl. own-timeframe seeding, append and all maintenance operations) is executed against "
          "hexital.Hexital bit for bit (check_hx); equality of members WITH helper series sharing one "
          "manager with their standalone twins is decided by the falsifier. Known findings K2 (lifespan + own timeframe seeded from trimmed candles) and K3 (Hexital timeframe + fill: own timeframe seeded from filled candles). Axioms: none.",
@@ -220,12 +225,16 @@ CHECKS["C17"] = dict(
     technique="Coq proof over R / generic NumOps + vm_compute correspondence + reference falsifier", design="5/C17")
 CHECKS["C19"] = dict(
     text="Theorems: calculating never alters a candle's timestamp, OHLCV, clean values or tag (frame theorem, all 27 kinds); the Candle / "
-         "dict / list(ts first) / list(ts last) encodings decode to the same candle. Falsifier: deep state snapshot before/after every "
+         "dict / list(ts first) / list(ts last) encodings decode to the same candle; Hexital.append hands every manager it holds - also "
+         "one whose indicators were all removed - exactly what that manager's own append of the same candles gives, and no member "
+         "operation (calculate, purge, recalculate, calculate_index, remove_indicator) drops a manager or touches its candle data. "
+         "Tie: the Hexital model run against hexital.Hexital over remove/append/add programs (check_hx). Falsifier: deep state snapshot before/after every "
          "read accessor of Indicator and Hexital interleaved with appends, object usable afterwards and equal to an unread twin; "
-         "encodings give identical Hexital state on every timeframe and leave the caller's containers untouched.",
+         "encodings give identical Hexital state on every timeframe and leave the caller's containers untouched; members come and go "
+         "while candles arrive, and every manager (orphaned ones too) equals a standalone CandleManager fed the whole stream.",
     note="Partial: in a functional model the read accessors cannot have side effects, so purity of the code's accessors is decided by "
-         "the falsifier only; the decode model is not executed against the code. Axioms: none.",
-    technique="Coq proof (frame theorem; decode equalities) + state-snapshot falsifier", design="5/C19")
+         "the falsifier only; the decode model is not executed against the code (the Hexital model is). Axioms: none.",
+    technique="Coq proof (frame theorem; decode equalities; delivery to every manager) + vm_compute correspondence of the Hexital model + state-snapshot falsifier", design="5/C19")
 CHECKS["C20"] = dict(
     text="Theorems about the accessor models for every NumOps instance: negative and positive index address the same candle; "
          "reading_by_index = Indicator.reading on valid indices and None otherwise; as_list is the column of readings; has_reading = "
